@@ -439,6 +439,16 @@ func TestC20CLI(t *testing.T) {
 			firsts := []string{"return 1;", script, "g0 = 99; a = 98; b = 97; function f0(a) { return 77; } function f1() { return 78; } return \"first\";",
 				"return 1 +;", "return 1 / 0;", "function f(n) { return f(n + 1); } return f(0);", "DEBUG = true; OPTIMIZE = false; return 2;", "panic(\"first\");"}
 			first = firsts[gen.Uniform(rt, "firstfile", len(firsts))]
+			if withTimeout && gen.Uniform(rt, "firstspins", 6) == 0 {
+				// the first script uses up its allowance: that is nothing to the second
+				first = "while ( true ) { }"
+				for i, a := range args {
+					if a == "30s" {
+						args[i] = "1500ms"
+					}
+				}
+				col.Class("cli-first-file-times-out")
+			}
 			ff := filepath.Join(dir, "first.in")
 			_ = os.WriteFile(ff, []byte(first), 0o644)
 			args = append(args, ff)
@@ -473,7 +483,9 @@ func TestC20CLI(t *testing.T) {
 			// the report of the first file comes first; then the one under test
 			fr := eng.NewRunner(first)
 			fwant := "Error compiling:"
-			if perr1, _ := fr.Prepare(noOpt); perr1 == nil {
+			if first == "while ( true ) { }" {
+				fwant = "Failed to run script:"
+			} else if perr1, _ := fr.Prepare(noOpt); perr1 == nil {
 				if r1 := fr.Execute(obj); r1.Err != nil {
 					fwant = "Failed to run script:"
 				} else {
